@@ -15,9 +15,10 @@ if [ "${TRY_SUITE:-1}" = 1 ]; then
   if cargo test --workspace --offline >"$OUT/suite.log" 2>&1; then echo "suite: passes with the mutant"; else echo "suite: FAILS with the mutant (not a valid seeded change)"; tail -5 "$OUT/suite.log"; fi
 fi
 if [ -f "$D/demo.rs" ] && [ "${TRY_DEMO:-1}" = 1 ]; then
-  sub=indextree; grep -q "macros::tree\|indextree_macros" "$D/demo.rs" && sub=indextree
+  sub=${TRY_DEMO_CRATE:-indextree}
+  [ -f "$D/demo-deps.diff" ] && git apply "$D/demo-deps.diff"
   cp "$D/demo.rs" /repo/$sub/tests/zz_seeded_demo.rs
-  if cargo test -p indextree --offline ${TRY_DEMO_FEATURES:+--features $TRY_DEMO_FEATURES} --test zz_seeded_demo >"$OUT/demo.log" 2>&1; then echo "demo: passes with the mutant (?!)"; else echo "demo: fails with the mutant (as it should)"; fi
+  if cargo test -p $sub --offline ${TRY_DEMO_FEATURES:+--features $TRY_DEMO_FEATURES} --test zz_seeded_demo >"$OUT/demo.log" 2>&1; then echo "demo: passes with the mutant (?!)"; else echo "demo: fails with the mutant (as it should)"; fi
   rm -f /repo/$sub/tests/zz_seeded_demo.rs
 fi
 cd /verif
